@@ -291,8 +291,13 @@ private:
     {
         byte_vector_t row( this->_io_dev.get_tile_size() );
 
-        using x_iterator = typename detail::my_interleaved_pixel_iterator_type_from_pixel_reference<typename View::reference>::type;
-        x_iterator row_it = x_iterator( &(*row.begin()));
+        // the tile buffer holds the samples in the order of the color space, like the scanline buffer of write_data:
+        // typed with the view's own pixel, a bgr8 view wrote B,G,R into a file that declares RGB
+        using pixel_t = pixel< typename channel_type< View >::type
+                             , layout< typename color_space_type< View >::type >
+                             >;
+        using x_iterator = pixel_t*;
+        x_iterator row_it = reinterpret_cast< x_iterator >( &(*row.begin()));
 
         internal_write_tiled_data(view, tw, th, row, row_it);
     }
